@@ -20,6 +20,8 @@ def run(ctx: core.Ctx) -> None:
     ]
     ctx.trusted += ["TLC", "fractions.Fraction quantisation (bbv/quant.py)", "numpy/scipy/pandas as used by the library"]
     sc.design_models(ctx)
+    if not ctx.quick:
+        sc.proof_check(ctx)
     sc.replay_exact(ctx)
     n = 160 if ctx.quick else 2000
     raws = sc.trace_runs(ctx, sc.gen_configs(ctx.seed, n, 100 if ctx.quick else 400), "C01", want_resid=False, want_rf=False)
